@@ -64,9 +64,16 @@ impl Rec {
 macro_rules! prim {
     ($($m:ident: $t:ty),*) => { $( fn $m(self, v: $t) -> Result<(), SErr> { self.tick(format!("{}({:?})", stringify!($m), v)) } )* };
 }
+thread_local! {
+    /// what the harness's serializer and deserializer answer to is_human_readable()
+    static HUMAN: std::cell::Cell<bool> = const { std::cell::Cell::new(true) };
+}
 impl Serializer for Rec {
     type Ok = ();
     type Error = SErr;
+    fn is_human_readable(&self) -> bool {
+        HUMAN.with(|h| h.get())
+    }
     type SerializeSeq = Rec;
     type SerializeTuple = Rec;
     type SerializeTupleStruct = Rec;
@@ -352,6 +359,9 @@ impl De {
 }
 impl<'de> Deserializer<'de> for De {
     type Error = SErr;
+    fn is_human_readable(&self) -> bool {
+        HUMAN.with(|h| h.get())
+    }
     fn deserialize_any<Vi: Visitor<'de>>(self, vis: Vi) -> Result<Vi::Value, SErr> {
         self.tick()?;
         match self.v.clone() {
@@ -748,7 +758,24 @@ pub fn panic_grid() -> Grid {
     g
 }
 
-pub fn run(_tier: &str) -> Vec<Grid> {
+pub fn run(tier: &str) -> Vec<Grid> {
+    // everything twice: with a (de)serializer that calls itself human readable, and with one that does not
+    let mut all = run_mode(tier);
+    HUMAN.with(|h| h.set(false));
+    for mut g in run_mode(tier) {
+        g.name = match g.name {
+            "c17.serialize" => "c17.serialize.binary-format",
+            "c17.deserialize" => "c17.deserialize.binary-format",
+            "c17.in_place" => "c17.in_place.binary-format",
+            _ => "c17.panic.binary-format",
+        };
+        all.push(g);
+    }
+    HUMAN.with(|h| h.set(true));
+    all
+}
+
+fn run_mode(_tier: &str) -> Vec<Grid> {
     let mut g = Grid::new("c17.serialize", "value family (u8, i64, String, (u8,String), Vec<u16> of length 0..3, Option, hand-written struct / enum / newtype+map) x failure injected at each k-th serializer call (k = 0..calls+1); the call log and the result through Arc<T>/UniqueArc<T> must equal those of the value");
     for v in [0u8, 7, 255] {
         ser_case(&mut g, "u8", &v);
